@@ -20,8 +20,8 @@ LEVEL_NOTE = ('Trusted: the uncached twin as reference (rule expansion itself is
 TECHNIQUE = ('deterministic simulation: seeded thread/iterator schedules over simulated locks, checked against a sequential list model')
 
 CLASSES = {
-    "coop":    dict(quick=6000, thorough=150000, timeout=30),
-    "threads": dict(quick=4000, thorough=100000, timeout=40),
+    "coop":    dict(quick=20000, thorough=500000, timeout=30),
+    "threads": dict(quick=12000, thorough=300000, timeout=40),
 }
 
 
